@@ -665,6 +665,13 @@ def cfg_cases(ctx, inv, quick_prios=3):
     for lo, hi in ((1, 3), (-2, 1), (2, 2)):
         rr = _cc("Cfg", _R("AtLeast", LEAF("n", lo, hi), LEAF("b"), id="R", v=2, s=1), _cc("ccAny", LEAF("a"), LEAF("b"), LEAF("c"), d="a", id="X"), id="cfg")
         cases.append({"recipe": rr, "src": "handmade", "prios_list": [[{}], [{"b": 1}], [{"c": 2, "n": 1}, {"a": -1}], [{"X": 1}]]})
+    # defaulted groups below a plain rule (All / Any / Imply), built directly and loaded from their JSON document
+    for top in ("All", "Any"):
+        for grp, dflt in (("ccAny", "a"), ("ccXor", "b"), ("ccAny", "c")):
+            rr = _cc("Cfg", _R(top, dict(_cc(grp, LEAF("a"), LEAF("b"), LEAF("c")), d=dflt), LEAF("x"), id="R"), id="cfg")
+            rr2 = _cc("Cfg", _R("Imply", LEAF("x"), _R(top, dict(_cc(grp, LEAF("a"), LEAF("b"), LEAF("c"), id="G"), d=dflt), LEAF("y"))), id="cfg")
+            for r_, via in ((rr, "ctor"), (rr, "json"), (rr2, "ctor"), (rr2, "json")):
+                cases.append({"recipe": r_, "src": "handmade", "via": via, "prios_list": [[{}], [{"x": 1}], [{"c": 1, "x": 1}, {"a": -1}]]})
     g = gen.Gen(ctx.rng, classes=CFG_RULES, ints=False, max_kids=3, depth=2, documented=True, max_box=64)
     n = 0
     while n < (120 if q else 1500):
@@ -675,7 +682,7 @@ def cfg_cases(ctx, inv, quick_prios=3):
         cases.append({"recipe": rr, "src": "random", "prios_list": prios_lists(B_leaves(rr), ctx.rng, n=2, comp_ids=sorted(_explicit(rr) - {rr["id"]}))})
         n += 1
     for k, c in enumerate(cases):
-        if k % 3 == 1 and not _has_prefix(c["recipe"]): c["via"] = "json"          # StingyConfigurator.from_json(recipe document)
+        if k % 3 == 1 and not _has_prefix(c["recipe"]) and "via" not in c: c["via"] = "json"          # StingyConfigurator.from_json(recipe document)
     return cases
 
 def _rename(r, prefix, memo=None):
@@ -849,8 +856,31 @@ def run_histories(ctx, cases):
             else:
                 ctx.rejects.setdefault(tid, []).append("store_unchanged")
 
+def shared_build_cases():
+    a, b, c, x, y = LEAF("a"), LEAF("b"), LEAF("c"), LEAF("x"), LEAF("y")
+    G = _R("Any", b, c)                       # a plain group the user keeps in a variable ...
+    GN = _R("Any", b, c, id="G")
+    K = _cc("ccAny", a, b, c, id="K", d="a")
+    KX = _cc("ccXor", a, b, c, id="K", d="b")
+    out = []
+    for g in (G, GN, _R("All", b, c), _R("Xor", b, c, id="G")):
+        out += [(_cc("Cfg", _cc("ccAny", a, g, id="X", d="a"), id="c1"), _cc("Cfg", _cc("ccAny", x, g, id="Y", d="x"), id="c2")),   # ... and uses in two groups
+                (_cc("Cfg", _cc("ccXor", a, g, id="X", d="a"), id="c1"), _cc("Cfg", _cc("ccAny", g, y, id="Y", d="y"), id="c2")),
+                (_cc("Cfg", _cc("ccAny", a, g, x, id="X", d="a"), id="c1"), _cc("Cfg", _cc("ccXor", a, g, x, id="X", d="x"), id="c2")),
+                (_R("All", g, x, id="A"), _cc("Cfg", _cc("ccAny", a, g, id="X", d="a"), id="c2")),
+                (_cc("Cfg", _cc("ccAny", a, g, id="X", d="a"), id="c1"), _R("Imply", x, g, id="I"))]
+    for k in (K, KX):
+        out += [(_cc("Cfg", k, id="c1"), _cc("Cfg", k, _R("Any", x, y, id="R"), id="c2")),
+                (_cc("Cfg", k, id="c1"), _R("All", k, x, id="A")),
+                (_cc("Cfg", k, _R("Imply", x, a, id="I"), id="c1"), _cc("Cfg", _R("Imply", x, a, id="I"), id="c2"))]
+    out += [(_cc("Cfg", _cc("ccAny", a, b, c, id="X", d="a"), id="c1"), _cc("Cfg", _cc("ccAny", a, b, id="X", d="b"), id="c2")),
+            (_R("All", _R("Any", a, b, id="B"), c, id="A"), _R("Any", _R("Any", a, b, id="B"), x, id="A2"))]
+    return [{"first": f, "second": s_} for f, s_ in out] + [{"first": s_, "second": f} for f, s_ in out]
+
 def run_c09(ctx):
     q = ctx.tier == "quick"
+    ctx.pmap(drivers.drv_shared_build, _stamp(shared_build_cases(), "drv_shared_build"))
+    ctx.region("sub_proposition_object_shared_by_two_models")
     cat = api_catalog()
     pairs = [(cat["M1"], cat["CfgD"]), (cat["CfgD"], cat["CfgP"]), (cat["Cfg3"], cat["Cfg4"]), (cat["G1"], cat["M2"]), (cat["M3"], cat["M3"])]
     if not q: pairs += [(cat["CfgP"], cat["CfgD"]), (cat["Cfg4"], cat["Cfg3"]), (cat["CfgG"], cat["M1"]), (cat["M1"], cat["M1"])]
